@@ -4,6 +4,15 @@ import glob
 import json
 import os
 
+
+def _write_atomic(path, obj):
+    """a check may read the file while it is rewritten: write beside it and rename"""
+    tmp = path + '.tmp%d' % os.getpid()
+    with open(tmp, 'w') as fh:
+        json.dump(obj, fh, indent=1)
+    os.replace(tmp, path)
+
+
 VERIF = os.path.dirname(os.path.dirname(os.path.abspath(__file__)))
 props = [json.loads(l)['id'] for l in open(os.path.join(VERIF, 'properties.jsonl'))]
 checks = []
@@ -50,7 +59,7 @@ man = {
     'not_applicable': na,
     'notes': 'See DESIGN.md. Known findings: known_findings.json. Seeded changes used to test the checks: seeded/.',
 }
-json.dump(man, open(os.path.join(VERIF, 'MANIFEST.json'), 'w'), indent=1)
+_write_atomic(os.path.join(VERIF, 'MANIFEST.json'), man)
 # known findings: one committed file assembled from the per-property files
 kf = {'findings': [], 'fixed': []}
 for f in sorted(glob.glob(os.path.join(VERIF, 'known_findings.d', '*.json'))):
@@ -63,5 +72,5 @@ for f in sorted(glob.glob(os.path.join(VERIF, 'known_findings.d', '*.json'))):
         e = dict(e)
         e['line'] = 'fixed: property=%s %s %s' % (e['property'], e.get('commit', ''), e.get('what', ''))
         kf['fixed'].append(e)
-json.dump(kf, open(os.path.join(VERIF, 'known_findings.json'), 'w'), indent=1)
+_write_atomic(os.path.join(VERIF, 'known_findings.json'), kf)
 print('claimed:', [c['property_id'] for c in checks])
